@@ -22,7 +22,8 @@ ASSUMPTIONS = [
 ]
 
 # 'SELF' / 'SKIP' as plain strings are ordinary dict keys (the reserved keys are the Key.SELF / Key.SKIP objects)
-KEYS = ['a', 'b', 'c', 'x1', 0, 1, 7, 'SELF', 'SKIP']
+# tuple-typed dict keys (e.g. slice-style ('t', 0)) are single keys as well
+KEYS = ['a', 'b', 'c', 'x1', 0, 1, 7, 'SELF', 'SKIP', ('t', 0), ('a', 'b')]
 
 
 def _key(path):
@@ -64,12 +65,12 @@ def run_laws(case):
   nontrivial = False
   classes = set()
   for oi, op in enumerate(case['ops']):
-    path = [tuple(c) for c in op['path']]
+    path = tr.npath(op['path'])
     value = tr.decode(op['value'])
     value_model = tr.decode(op['value'])
     snap = tr.snapshot(cur)
     key = _key(path) if path else tree.Key.SELF
-    if len(path) == 1 and op.get('raw') and path[0][0] == 'k':
+    if len(path) == 1 and op.get('raw') and path[0][0] == 'k' and not isinstance(path[0][1], tuple):
       key = path[0][1]   # a bare key instead of a Key path
     what = f'op {oi}: TreeMapView({snap!r}).copy_and_set({key!r}, {value!r})'
     view = tree.TreeMapView(cur)
@@ -173,7 +174,7 @@ def strat_laws(tier):
       else:
         vj = draw(_tree(2, True))
       ops.append({'path': path, 'value': vj, 'raw': draw(st.booleans())})
-      model = tr.ref_set(model, [tuple(c) for c in path], tr.decode(vj))
+      model = tr.ref_set(model, tr.npath(path), tr.decode(vj))
       if not tr.is_container(model):
         break
     return {'tree': tj, 'ops': ops, 'share': share}
@@ -240,8 +241,8 @@ def run_views(case):
     elif m == 'SELF':
       multi.append(tree.Key.SELF); want.append(data)
     else:
-      p = [tuple(c) for c in m]
-      multi.append(_key(p) if (len(p) != 1 or p[0][0] == 'i' or case.get('as_key')) else p[0][1])
+      p = tr.npath(m)
+      multi.append(_key(p) if (len(p) != 1 or p[0][0] == 'i' or case.get('as_key') or isinstance(p[0][1], tuple)) else p[0][1])
       want.append(tr.ref_get(data, p))
   if multi:
     got = _guard(lambda: view[tuple(multi)], f'{what}[{tuple(multi)!r}]')
@@ -264,23 +265,28 @@ def run_views(case):
   check(tr.deep_equal(sk, snap), 'skip-sets-something', f'{what}.copy_and_set(SKIP) -> {sk!r}')
   upd = case.get('update') or []
   if upd:
-    pairs = [([tuple(c) for c in p], tr.decode(vj)) for p, vj in upd]
+    pairs = [(tr.npath(p), tr.decode(vj)) for p, vj in upd]
     model = data
     for p, v in pairs:
       model = tr.ref_set(model, p, v)
     ks = tuple(_key(p) for p, _ in pairs)
     vs = tuple(v for _, v in pairs)
-    r1 = _guard(lambda: view.copy_and_update(dict(zip(ks, vs))).data, f'{what}.copy_and_update(mapping {ks!r})')
-    check(tr.deep_equal(r1, model), 'copy_and_update-differs', f'{what}.copy_and_update({dict(zip(ks, vs))!r}) = {r1!r}, reference {model!r}')
+    dups = len({repr(k) for k in ks}) != len(ks)
+    # an iterable of pairs is applied in the given order (the same path may come twice, with related paths in between)
     r2 = _guard(lambda: view.copy_and_update(list(zip(ks, vs))).data, f'{what}.copy_and_update(pairs)')
-    check(tr.deep_equal(r2, model), 'copy_and_update-differs', f'{what}.copy_and_update(pairs) = {r2!r}, reference {model!r}')
-    r3 = _guard(lambda: (view | dict(zip(ks, vs))).data, f'{what} | mapping')
-    check(tr.deep_equal(r3, model), 'copy_and_update-differs', f'view | mapping = {r3!r}')
-    # SKIP in a multi-key set: the skipped value is dropped, the others land on their own keys
-    ks2 = ks[:1] + (tree.Key.SKIP,) + ks[1:]
-    vs2 = vs[:1] + ('dropped',) + vs[1:]
-    r4 = _guard(lambda: view.copy_and_set(ks2, vs2).data, f'{what}.copy_and_set({ks2!r}, ...)')
-    check(tr.deep_equal(r4, model), 'skip-misaligns-multiset', f'{what}.copy_and_set({ks2!r}, {vs2!r}) = {r4!r}, reference {model!r}')
+    check(tr.deep_equal(r2, model), 'copy_and_update-differs', f'{what}.copy_and_update(pairs {list(zip(ks, vs))!r}) = {r2!r}, reference {model!r}')
+    r2g = _guard(lambda: view.copy_and_update((kv for kv in zip(ks, vs))).data, f'{what}.copy_and_update(generator of pairs)')
+    check(tr.deep_equal(r2g, model), 'copy_and_update-differs', f'{what}.copy_and_update(generator of pairs) = {r2g!r}, reference {model!r}')
+    if not dups:
+      r1 = _guard(lambda: view.copy_and_update(dict(zip(ks, vs))).data, f'{what}.copy_and_update(mapping {ks!r})')
+      check(tr.deep_equal(r1, model), 'copy_and_update-differs', f'{what}.copy_and_update({dict(zip(ks, vs))!r}) = {r1!r}, reference {model!r}')
+      r3 = _guard(lambda: (view | dict(zip(ks, vs))).data, f'{what} | mapping')
+      check(tr.deep_equal(r3, model), 'copy_and_update-differs', f'view | mapping = {r3!r}')
+      # SKIP in a multi-key set: the skipped value is dropped, the others land on their own keys
+      ks2 = ks[:1] + (tree.Key.SKIP,) + ks[1:]
+      vs2 = vs[:1] + ('dropped',) + vs[1:]
+      r4 = _guard(lambda: view.copy_and_set(ks2, vs2).data, f'{what}.copy_and_set({ks2!r}, ...)')
+      check(tr.deep_equal(r4, model), 'skip-misaligns-multiset', f'{what}.copy_and_set({ks2!r}, {vs2!r}) = {r4!r}, reference {model!r}')
     check(tr.deep_equal(data, snap), 'original-mutated', f'{what} changed by copy_and_update: {data!r}')
   paths = [p for p, _ in ref_leaves]
   nt = _depth(data) >= 2 and any(len(p) >= 2 and sum(1 for q in paths if q[0] == p[0]) >= 2 for p in paths)
@@ -317,15 +323,18 @@ def strat_views(tier):
       if kind == 'self' or not path:
         continue
       vj = {'v': draw(st.integers(10, 20))} if kind == 'array-elem' else draw(_tree(2, False))
-      model = tr.ref_set(model, [tuple(c) for c in path], tr.decode(vj))
+      model = tr.ref_set(model, tr.npath(path), tr.decode(vj))
       upd.append([path, vj])
-    # copy_and_update with a mapping needs distinct keys
-    seen, upd2 = set(), []
-    for p, vj in upd:
-      if repr(p) not in seen:
-        seen.add(repr(p)); upd2.append([p, vj])
-    if len(upd2) != len(upd):
-      upd2 = []
+    # the same path may be set twice (only the pair forms of copy_and_update are exercised then)
+    first_is_array_elem = bool(upd) and isinstance(upd[0][1].get('v'), int) and not isinstance(upd[0][1].get('v'), bool) and upd[0][1]['v'] >= 10
+    if upd and not first_is_array_elem and draw(st.integers(0, 3)) == 0:
+      p0, vj = upd[0][0], draw(_tree(2, False))
+      try:      # the path may have stopped existing (an ancestor was replaced by a leaf in between): then no repeat
+        model = tr.ref_set(model, tr.npath(p0), tr.decode(vj))
+        upd.append([p0, vj])
+      except (TypeError, KeyError, IndexError, AssertionError):
+        pass
+    upd2 = upd
     return {'tree': tj, 'multi': multi, 'update': upd2, 'as_key': draw(st.booleans()), 'share': share}
   return s()
 
